@@ -1,4 +1,4 @@
-use crate::backend::Peer;
+use crate::backend::{next_conn, ForgetConn, Peer};
 use crate::codec::{FramedIo, Message, ZmqFramedRead};
 use crate::endpoint::Endpoint;
 use crate::error::{ZmqError, ZmqResult};
@@ -13,7 +13,6 @@ use crate::{
 
 use async_trait::async_trait;
 use bytes::{BufMut, BytesMut};
-use crossbeam_queue::SegQueue;
 use futures::channel::mpsc;
 use futures::{SinkExt, StreamExt};
 use parking_lot::Mutex;
@@ -27,9 +26,8 @@ pub enum SubBackendMsgType {
 }
 
 pub(crate) struct SubSocketBackend {
-    pub(crate) peers: scc::HashMap<PeerIdentity, Peer>,
+    pub(crate) peers: scc::HashMap<PeerIdentity, Arc<Peer>>,
     fair_queue_inner: Option<Arc<Mutex<QueueInner<ZmqFramedRead, PeerIdentity>>>>,
-    pub(crate) round_robin: SegQueue<PeerIdentity>,
     socket_type: SocketType,
     socket_options: SocketOptions,
     pub(crate) socket_monitor: Mutex<Option<mpsc::Sender<SocketEvent>>>,
@@ -40,21 +38,24 @@ pub(crate) struct SubSocketBackend {
     subs_order: futures::lock::Mutex<()>,
 }
 
-impl SubSocketBackend {
-    /// `peer_disconnected` for a caller that held the peer's table entry across an await. Meanwhile
-    /// a task registering another peer may have queued for the same bucket; it is next in line
-    /// and may need this very thread to run, so the removal is awaited: a blocking wait could
-    /// never be granted on a single-threaded runtime.
-    async fn forget_peer(&self, peer_id: &PeerIdentity) {
-        if let Some(monitor) = self.monitor().lock().as_mut() {
-            let _ = monitor.try_send(SocketEvent::Disconnected(peer_id.clone()));
+impl ForgetConn for SubSocketBackend {
+    fn forget_conn(&self, peer_id: &PeerIdentity, conn: u64) {
+        let forgotten = self
+            .peers
+            .remove_if_sync(peer_id, |peer| peer.conn == conn)
+            .is_some();
+        if forgotten {
+            if let Some(monitor) = self.monitor().lock().as_mut() {
+                let _ = monitor.try_send(SocketEvent::Disconnected(peer_id.clone()));
+            }
         }
-        self.peers.remove_async(peer_id).await;
         if let Some(inner) = &self.fair_queue_inner {
-            inner.lock().remove(peer_id);
+            inner.lock().remove_conn(peer_id, conn);
         }
     }
+}
 
+impl SubSocketBackend {
     pub(crate) fn with_options(
         fair_queue_inner: Option<Arc<Mutex<QueueInner<ZmqFramedRead, PeerIdentity>>>>,
         socket_type: SocketType,
@@ -63,7 +64,6 @@ impl SubSocketBackend {
         Self {
             peers: scc::HashMap::new(),
             fair_queue_inner,
-            round_robin: SegQueue::new(),
             socket_type,
             socket_options: options,
             socket_monitor: Mutex::new(None),
@@ -124,14 +124,16 @@ impl MultiPeerBackend for SubSocketBackend {
         #[cfg(feature = "verif-hooks")]
         crate::__verif::yield_point("sub.join.after_snapshot").await;
 
+        let conn = next_conn();
         self.peers
-            .upsert_async(peer_id.clone(), Peer { send_queue })
+            .upsert_async(peer_id.clone(), Peer::new(conn, send_queue))
             .await;
-        self.round_robin.push(peer_id.clone());
         match &self.fair_queue_inner {
             None => {}
             Some(inner) => {
-                inner.lock().insert(peer_id.clone(), recv_queue);
+                inner
+                    .lock()
+                    .insert_conn(peer_id.clone(), conn, recv_queue);
             }
         };
     }
@@ -191,26 +193,30 @@ impl SubSocket {
         msg_type: SubBackendMsgType,
     ) -> ZmqResult<()> {
         let message: ZmqMessage = SubSocketBackend::create_subs_message(subscription, msg_type);
-        let mut iter = self.backend.peers.begin_async().await;
+        let mut peers = Vec::new();
+        self.backend
+            .peers
+            .iter_async(|peer_id, peer| {
+                peers.push((peer_id.clone(), peer.clone()));
+                true
+            })
+            .await;
         // A failure on one peer's connection must not keep the other peers from being told.
         let mut first_error = None;
-        let mut dead_peers = Vec::new();
 
-        while let Some(mut peer) = iter {
+        for (peer_id, peer) in peers {
             #[cfg(feature = "verif-hooks")]
             crate::__verif::yield_point("sub.process_subs.peer").await;
-            if let Err(e) = peer
+            let sent = peer
                 .send_queue
-                .send(Message::Message(message.clone()))
+                .lock()
                 .await
-            {
+                .send(Message::Message(message.clone()))
+                .await;
+            if let Err(e) = sent {
                 first_error.get_or_insert(e);
-                dead_peers.push(peer.key().clone());
+                self.backend.forget_conn(&peer_id, peer.conn);
             }
-            iter = peer.next_async().await;
-        }
-        for peer_id in dead_peers {
-            self.backend.forget_peer(&peer_id).await;
         }
         match first_error {
             Some(e) => Err(e.into()),
@@ -264,7 +270,8 @@ impl SocketRecv for SubSocket {
                     // not internal protocol frames like commands or greetings.
                 }
                 Some((peer_id, Err(e))) => {
-                    self.backend.peer_disconnected(&peer_id);
+                    self.backend
+                        .forget_conn(&peer_id, self.fair_queue.last_conn());
                     // Handle potential errors from the fair queue
                     return Err(e.into());
                 }
